@@ -108,6 +108,8 @@ def families(tier):
     # four initial n-grams on ONE level, some of them without any continuation: positions inside a level's list of initial n-grams, saved as an index
     # by a generator and read back by another one
     fam['ng3_hist_ip4'] = (lambda: models_ngram3([(0, 0, 0, 0)], [0, 1, ABSENT], [{4: 0, 5: 1}]), 'pairs')
+    # positions on level 10 (initial n-grams and lengths the trainer never saw): saved inside levels 10..22 and read back by another generator
+    fam['ng2_save_lvl10'] = (lambda: models_ngram2([0, 10], [0, 1, ABSENT], [0, 10], [3, 4]), 'saveload', range(0, 23))
     if tier == 'thorough':
         fam['ng2_abc'] = (models_ngram2_abc, 'levels')
         fam['ng3'] = (lambda: models_ngram3([(0, 1, 1, ABSENT), (0, 0, 1, 2), (1, ABSENT, 0, 0)], [0, 1, ABSENT],
@@ -193,9 +195,9 @@ def explore_model(mods, m, mode, acc, counting=True, levels=None):
                 if msg:
                     fails.append(('history', 'shared cache, levels generated %s up to %d: %s' % (name, L, msg)))
                     break
-        if mode == 'pairs' and not fails:
-            hl = range(0, 6)
-            for L1 in hl:
+        if mode in ('pairs', 'saveload') and not fails:
+            hl = range(0, 6) if mode == 'pairs' else levels
+            for L1 in (hl if mode == 'pairs' else ()):
                 n1 = sum(ref.get(L1, Counter()).values())
                 for L2 in hl:
                     # sequential pair
